@@ -66,6 +66,8 @@ pub struct Shared {
     pub write_seq_pos: usize,
     pub spin_limit: u64,
     /// when set, reads fail with this error kind once the queue is empty (instead of EOF)
+    /// one read call fails with this error kind when exactly `.0` bytes have been delivered so far (then never again)
+    pub read_err_once_at: Option<(usize, io::ErrorKind)>,
     pub err_when_empty: Option<io::ErrorKind>,
 }
 
@@ -85,6 +87,7 @@ impl Shared {
             write_plan: WritePlan::All,
             write_seq_pos: 0,
             spin_limit: 1_000_000,
+            read_err_once_at: None,
             err_when_empty: None,
         }
     }
@@ -139,7 +142,7 @@ impl Read for MemLink {
             return Ok(0);
         }
         if sh.to_client.is_empty() {
-            self.peer.borrow_mut().pump(&mut sh, true);
+            crate::alloc::exempt(|| self.peer.borrow_mut().pump(&mut sh, true));
         }
         if sh.to_client.is_empty() {
             if let Some(k) = sh.err_when_empty {
@@ -148,6 +151,12 @@ impl Read for MemLink {
             }
             crate::alloc::exempt(|| sh.trace.push(Ev::CREof));
             return Ok(0);
+        }
+        if let Some((pos, kind)) = sh.read_err_once_at {
+            if sh.delivered_to_client == pos {
+                sh.read_err_once_at = None;
+                return Err(io::Error::new(kind, "injected read error"));
+            }
         }
         let mut n = buf.len().min(sh.to_client.len());
         match &sh.read_plan {
@@ -219,7 +228,7 @@ impl Write for MemLink {
         sh.from_client.extend_from_slice(&buf[..n]);
         crate::alloc::exempt(|| sh.trace.push(Ev::CW(n, off)));
         if n > 0 {
-            self.peer.borrow_mut().pump(&mut sh, false);
+            crate::alloc::exempt(|| self.peer.borrow_mut().pump(&mut sh, false));
         }
         Ok(n)
     }
